@@ -47,6 +47,8 @@ def key_fn(ev, clause):
         return '%s|%s|%s' % (c, w[1], 'value_contains_' + ''.join(unsafe) if unsafe else 'header_safe_value')
     if c == 'Inv_C04_Molecule':
         return '%s|%s|%s' % (c, ev['strategy'], '_'.join(w[1:]) or 'wrong_value')
+    if c == 'Inv_C04_serialising_accepted_pair_raises':
+        return '%s|%s|%s|%s' % (c, ev.get('strategy'), ev.get('ser_raised'), ev.get('mode'))
     return '%s|%s' % ('_'.join(w), ev.get('strategy'))
 
 
